@@ -285,6 +285,24 @@ def gen_control():
     return out
 
 
+def gen_stmt_exprs():
+    """Statement-expressions with every kind of statement in front of the value (also statements that have no effect
+    of their own), with 1..3 statements, in every position a value can stand in."""
+    out = []
+    d = [("int32_t", "a", "input"), ("int32_t", "b", "input"), ("int64_t", "r", "local")]
+    stmts = [";", "{}", "{ ; }", 'fatal("unreachable");', "r = b;", "RxV = b;", "mem_store_u8(a, b);", "trap(0, 1);", "int32_t t = b;", "int32_t t;", "if (b) { r = 1; }", "for (i = 0; i < 2; i++) { r += b; }",
+             "cancel_slot;", "b++;", "clz32(b);", "JUMP(b);"]
+    positions = [("assign", "r = %s;"), ("reg", "RdV = %s;"), ("sum", "r = %s + b;"), ("if-arm", "if (a > 1) { RdV = %s; }"), ("cond-arm", "r = a ? %s : b;"), ("cond-arm2", "r = a ? b : %s;"), ("arg", "r = clz32(%s);"),
+                 ("unused", "%s;"), ("cond", "if (%s) { r = 1; }"), ("init", "int32_t q = %s; r = q;"), ("const-arm", "r = 1 ? %s : b;"), ("store", "mem_store_u16(b, %s);")]
+    for x in stmts:
+        for pn, pos in positions:
+            out.append(P(d, pos % ("({ %s a; })" % x), ("stmtexpr", x, pn)))
+        for y in stmts[:8]:
+            out.append(P(d, "r = ({ %s %s a; });" % (x, y), ("stmtexpr2", x, y)))
+            out.append(P(d, "RdV = ({ %s %s a + b; });" % (y, x), ("stmtexpr2r", x, y)))
+    return out
+
+
 def gen_rw_operands():
     """Read-write / write-only register operands in every read/write pattern."""
     out = []
@@ -305,7 +323,7 @@ def static_space(tier):
         specs += c02.space("quick")
         specs += gen_assignments(T8, T8)
         specs += gen_bool_mix(["int8_t", "uint8_t", "uint16_t", "int32_t", "uint32_t", "int64_t", "uint64_t"])
-    specs += gen_reuse() + gen_folding() + gen_control() + gen_rw_operands() + gen_reg_updates()
+    specs += gen_reuse() + gen_folding() + gen_control() + gen_rw_operands() + gen_reg_updates() + gen_stmt_exprs()
     specs += gen_bool_positions(BOOL_EXPRS[:4] if tier == "quick" else BOOL_EXPRS)
     specs += gen_cond_positions()
     specs += gen_calls(CALL_ARGS[:8] if tier == "quick" else CALL_ARGS)
@@ -507,8 +525,24 @@ def run(ctx, col):
         else:
             ctx.report(case, sorted(set(fids)), what=what)
     extra = {}
+    # bodies of registered sub-routines (the only texts with RzILOpPure parameters)
+    gen = generated_routine_texts()
+    for (fmt, rname), (src, r) in sorted(gen.items()):
+        if r[0] != "ok":
+            continue
+        origins["sub"] += 1
+        n += 1
+        errs = r[1].get(col) or []
+        if not errs:
+            continue
+        bad += 1
+        fids = [attribute(col, e, src) for e in errs]
+        case = {"origin": ["generated-sub", fmt, rname], "source": src[:2000], "errors": errs[:5], "column": col}
+        ctx.report(case, None if not all(fids) else sorted(set(fids)), what="%s generated sub-routine %s (%s layout) %s: %s" % (TITLES[col], rname, fmt, src[:160], errs[0][:200]))
+    extra["generated_sub_routines_checked"] = len([1 for v in gen.values() if v[1][0] == "ok"])
+    extra["generated_sub_routines_rejected"] = len([1 for v in gen.values() if v[1][0] != "ok"])
     if col == "wellformed":
-        extra = metadata_checks(ctx)
+        extra.update(metadata_checks(ctx))
     for origin, src, r in res[:2] + res[-2:]:
         ctx.sample({"origin": [str(x)[:120] for x in origin[:3]], "errors": r.get(col)})
     return ctx.finish(
@@ -611,6 +645,71 @@ def generated_metadata(ctx):
                     ctx.report({"parts": list(texts), "part": pi, "layout": fmt, "why": "text mentions %s but needs_%s is false" % (var, var), "text_tail": text[-400:]}, None,
                                what="generated part %s (%s layout): needs_%s is false although the body uses %s" % (texts[pi], fmt, var, var))
     return {"generated_metadata_instructions": n_ok, "generated_metadata_rejected": n_rej, "generated_metadata_hi_pkt_mention_combinations": sorted(combos)}
+
+
+# generated sub-routines for the static checks: parameters read 0..4 times, inside statement-expressions, conditionals,
+# loops, calls and casts; by-reference operands; void routines
+GEN_ROUTINES = [
+    ("g_once", "int32_t", ["int32_t a"], "{ return a; }"),
+    ("g_unused", "int32_t", ["int32_t a", "int32_t b"], "{ return b; }"),
+    ("g_twice", "int32_t", ["int32_t a"], "{ return a + a; }"),
+    ("g_four", "uint32_t", ["uint32_t a", "uint32_t b"], "{ uint32_t g_four_r = (a > b) ? a : (a - b); return g_four_r + a + b; }"),
+    ("g_se_param", "uint32_t", ["uint32_t a", "uint32_t b"], "{ uint32_t g_sp_r = (a > b) ? ({ trap(0, 1); a; }) : (a - b); return g_sp_r + a; }"),
+    ("g_se_param2", "uint32_t", ["uint32_t a"], "{ uint32_t g_sq_r = ({ trap(0, 1); a; }); return g_sq_r + a + a; }"),
+    ("g_se_op", "int32_t", ["int32_t a", "int32_t b"], "{ int32_t g_so_r = ({ ; a + 1; }); return g_so_r * a + b; }"),
+    ("g_se_first", "int64_t", ["int64_t a"], "{ int64_t g_sf_r = ({ int64_t g_sf_t = a; g_sf_t + a; }); return g_sf_r - a; }"),
+    ("g_inc", "int32_t", ["int32_t a"], "{ int32_t g_inc_t = a; g_inc_t++; return g_inc_t + a; }"),
+    ("g_loop", "int32_t", ["int32_t a", "uint8_t n"], "{ int32_t g_loop_s = 0; int32_t g_loop_i; for (g_loop_i = 0; g_loop_i < n; g_loop_i++) { g_loop_s += a; } return g_loop_s + a + n; }"),
+    ("g_call", "uint32_t", ["uint32_t a"], "{ return clz32(a) + clo32(a) + a; }"),
+    ("g_cast", "int64_t", ["int8_t a", "uint16_t b"], "{ return (int64_t)a + (uint8_t)b + a + b; }"),
+    ("g_cond", "int32_t", ["int32_t a", "int32_t b"], "{ if (a > b) { return a; } else { return b - a; } }"),
+    ("g_const", "int32_t", ["int32_t a"], "{ return 1 ? a : a + 1; }"),
+    ("g_void", "void", ["HexInsnPktBundle *bundle", "int32_t a"], "{ set_usr_field(bundle, HEX_REG_FIELD_USR_OVF, a & 1); trap(a, a); }"),
+    ("g_ref", "int32_t", ["HexInsnPktBundle *bundle", "const HexOp *RxV", "int32_t a"], "{ RxV = RxV + a; return RxV + a; }"),
+    ("g_nested", "uint32_t", ["uint32_t a", "uint32_t b"], "{ return g_four(a, b) + g_twice(a) + b; }"),
+    ("g_empty_se", "int32_t", ["int32_t a", "int32_t b"], "{ return ({ ; a; }) + b; }"),
+    ("g_mem", "int32_t", ["HexInsnPktBundle *bundle", "uint32_t a"], "{ mem_store_u8(a, a); return mem_load_u8(a) + a; }"),
+]
+_GEN_CACHE = {}
+
+
+def _gen_routines(fmt):
+    from rzilcompiler.Transformer.Hybrids.SubRoutine import SubRoutineInitType
+    from vf import prog
+
+    comp = drive.get_compiler(fmt)
+    ok = {}
+    for n, r, p_, b in GEN_ROUTINES:
+        try:
+            comp.add_sub_routine(n, r, p_, b)
+            ok[n] = comp.sub_routines[n].il_init(SubRoutineInitType.DEF)
+        except Exception as e:
+            ok[n] = None
+    env = prog.Env(comp, extra_routines={n: {"return_type": r, "params": p_, "code": b} for n, r, p_, b in GEN_ROUTINES if ok[n] is not None})
+    out = {}
+    for n, r, p_, b in GEN_ROUTINES:
+        if ok[n] is None:
+            out[n] = (b, ("rejected",))
+            continue
+        try:
+            res = sweep.check_text(ok[n], b, env, is_sub=True, sub_name=n)
+        except Exception as e:  # reader crash = malformed text
+            res = {"wellformed": ["reader failed: %r" % (e,)], "linearity": [], "sorts": []}
+        out[n] = (b, ("ok", res, ok[n][-600:]))
+    return out
+
+
+def generated_routine_texts():
+    """{(layout, routine): (source, ('ok', static errors, text tail) | ('rejected',))}; compiled in a forked child so that
+    the routines never reach the compilers the other parts of the check use."""
+    if not _GEN_CACHE:
+        for fmt in ("stmt", "exec"):
+            r = core.fresh_call(_gen_routines, fmt)
+            if r[0] != "ok":
+                raise core.HarnessError("compiling the generated sub-routines failed: %s" % (r[1:],))
+            for n, v in r[1].items():
+                _GEN_CACHE[(fmt, n)] = v
+    return _GEN_CACHE
 
 
 META_ROUTINES = [
